@@ -34,6 +34,88 @@ pub fn property(v: &RefValue, oc: &OptCase, route: bool) -> Result<(), String> {
 	Ok(())
 }
 
+/// Post-processing of a constructed value through the public mutating API (the value that gets printed
+/// is then whatever the accessors read back).
+pub fn postprocess(value: &mut Value, op: u8) -> &'static str {
+	fn each(v: &mut Value, f: &mut dyn FnMut(&mut Value)) {
+		f(v);
+		match v {
+			Value::Array(a) => a.iter_mut().for_each(|x| each(x, f)),
+			Value::Object(o) => o.iter_mut().for_each(|e| each(e.1, f)),
+			_ => {}
+		}
+	}
+	match op % 5 {
+		0 => {
+			value.canonicalize();
+			"canonicalize"
+		}
+		1 => {
+			let mut buffer = ryu_js::Buffer::new();
+			value.canonicalize_with(&mut buffer);
+			value.canonicalize_with(&mut buffer);
+			"canonicalize_with_twice"
+		}
+		2 => {
+			each(value, &mut |v| {
+				if let Some(o) = v.as_object_mut() {
+					o.sort()
+				}
+			});
+			"sort_every_object"
+		}
+		3 => {
+			each(value, &mut |v| {
+				if let Some(s) = v.as_string_mut() {
+					s.push('"');
+					s.insert(0, '\u{1f}');
+				}
+				if let Some(b) = v.as_boolean_mut() {
+					*b = !*b
+				}
+				if let Some(a) = v.as_array_mut() {
+					a.reverse()
+				}
+			});
+			"mutate_in_place"
+		}
+		_ => {
+			let inner = value.take();
+			let mut o = json_syntax::Object::new();
+			o.push("\u{0}".into(), inner.clone());
+			o.insert("\u{0}".into(), inner);
+			*value = Value::Object(o);
+			value.canonicalize();
+			"take_wrap_canonicalize"
+		}
+	}
+}
+
+/// The round-trip clauses for a value that went through `postprocess`; the model is the read-back tree.
+pub fn property_post(v: &RefValue, oc: &OptCase, route: bool, op: u8) -> Result<&'static str, String> {
+	let mut value = build(v, route);
+	let what = postprocess(&mut value, op);
+	let model = RefValue::from_value(&value);
+	let text = oc.print(&value);
+	let chars: Vec<char> = text.chars().collect();
+	let r = ref_parse(&chars, true);
+	if !r.accepted_strict() {
+		return Err(format!("after {what}: printed text is not a strict RFC 8259 document (reference: {:?}): {text:?}", r.syntax_err));
+	}
+	let doc = r.doc.unwrap();
+	if doc.value != model {
+		return Err(format!("after {what}: printed text {text:?} denotes {:?}, the accessors read {:?}", doc.value, model));
+	}
+	let (back, _) = Value::parse_str(&text).map_err(|e| format!("after {what}: printed text does not re-parse: {e:?} in {text:?}"))?;
+	if back != value {
+		return Err(format!("after {what}: re-parsing the printed text {text:?} gives a different value"));
+	}
+	if let Err(m) = crate::objquery::check_all_objects(&value, &model, &["", "a", "\u{0}"]) {
+		return Err(format!("after {what}: {m}"));
+	}
+	Ok(what)
+}
+
 fn classify(v: &RefValue, oc: &OptCase) -> (bool, Vec<&'static str>) {
 	let mut strs = vec![];
 	v.all_strings(&mut strs);
@@ -102,10 +184,42 @@ pub fn run(ctx: &mut Ctx) {
 		fam.sample(|| case_json(&values[100], &opts[10], false));
 		ctx.add(fam);
 	}
+	if ctx.wants("P_postprocessed_values") {
+		let n = ctx.pick(150_000, 1_000_000);
+		let fam = Fam::new("P_postprocessed_values", "proptest: random value (numbers include magnitudes outside double range) built on a random route, then post-processed through the public mutating API (canonicalize, canonicalize_with twice, sort of every object, in-place mutation through as_*_mut, take + wrap + canonicalize) and printed under a random option record; the printed text is accepted by the reference automaton, denotes the tree the accessors read back, re-parses to an equal value, and every object still answers key queries like a linear scan; non-trivial = the value contains a number and an object", false);
+		let fam = run_proptest(
+			ctx,
+			fam,
+			n,
+			|| (gen::arb_doc_value(print_value_cfg()), arb_optcase(), any::<bool>(), 0u8..5),
+			|(v, oc, route, op)| match property_post(v, oc, *route, *op) {
+				Ok(what) => {
+					let mut nums = vec![];
+					v.all_numbers(&mut nums);
+					let huge = nums.iter().any(|n| n.parse::<f64>().map(|f| f.is_infinite()).unwrap_or(false));
+					let mut classes = vec![what];
+					if huge {
+						classes.push("number_outside_double_range");
+					}
+					Outcome::ok(!nums.is_empty() && v.any(&|x| matches!(x, RefValue::Obj(_))), classes)
+				}
+				Err(m) => Outcome::fail(m),
+			},
+			|(v, oc, route, op)| {
+				let mut j = case_json(v, oc, *route);
+				j["post"] = serde_json::json!(op);
+				j
+			},
+		);
+		ctx.add(fam);
+	}
 	ctx.assume("values are built through public constructors only (Value::from, Object::from_vec / push, NumberBuf::new)");
 }
 
 pub fn replay(_family: &str, case: &J) -> Result<(), String> {
 	let (v, oc, route) = case_decode(case);
+	if let Some(op) = case.get("post").and_then(|x| x.as_u64()) {
+		return property_post(&v, &oc, route, op as u8).map(|_| ());
+	}
 	property(&v, &oc, route)
 }
